@@ -5,7 +5,7 @@
    to return, for every pop, (popped node, queue right after the pop, tree at that moment); wl_loop_log_erase shows it is
    the same machine. The heap property of the transcription (HeapOrd) is PROVED (coq/proofs/StdHeap.v), not monitored. *)
 From Gdsl.Model Require Import Spec Callback.
-From Gdsl.Proofs Require Import StdHeap Worklist Pfs.
+From Gdsl.Proofs Require Import StdHeap Worklist Pfs SearchGlue.
 
 (* the instrumented loop returns exactly what wl_loop returns *)
 Theorem c06_instrumentation_is_erasable :
@@ -229,6 +229,22 @@ Theorem c06_terminates :
        snd (search_find keqb cb vleb k d fuel h c0 root t) <> RFuel E.
 Proof. exact pfs_terminates. Qed.
 Print Assumptions c06_terminates.
+
+(* never the unwrap() panic of backtrack_edge_tree (any worklist kind, hence the pfs kinds) *)
+Theorem c06_no_panic :
+  forall (K V E : Type) (keqb : K -> K -> bool),
+       KeqbSpec keqb ->
+       forall (CB : Type) (cb : CB -> heap K V E -> edge E -> CB * heap K V E * bool)
+         (accept : edge E -> bool) (vleb : V -> V -> bool) (h : heap K V E),
+       Wf h ->
+       KeysInj h ->
+       PureCb h cb accept ->
+       forall (d : dir) (root : nat),
+       root < size h ->
+       forall (c0 : CB) (k : kind) (fuel : nat) (t : option K) (cyc : bool),
+       k <> KDfs -> snd (search_path keqb cb vleb k d fuel h c0 root t cyc) <> RPanic E.
+Proof. exact wlq_no_panic. Qed.
+Print Assumptions c06_no_panic.
 
 (* Ord / PartialOrd of nodes = comparison of their values *)
 Theorem c06_node_cmp :
